@@ -51,6 +51,7 @@ type Frame struct {
 	topProps []string
 	atExit   bool
 	callStates map[string]*State
+	autoLevel  map[string]int // Houdini state of automatic loop-frame candidates: 0 = since loop start, 1 = entry cells, 2 = off
 }
 
 type Mode struct {
@@ -69,6 +70,7 @@ type loopInfo struct {
 	rangeSeq ssa.Value  // the slice ranged over
 	mapIter  *ssa.Range // range over map
 	pre      *State     // state before the loop (for inv scope: pre(e))
+	mods     []string
 }
 
 func (fr *Frame) val(v ssa.Value) *Term {
@@ -430,7 +432,65 @@ func (fr *Frame) enterLoop(li *loopInfo, st *State, phis []*ssa.Phi, phiVal func
 		g := fr.evalAssume(c, st, li)
 		vc.assume(st.guard, g)
 	}
+	// automatic accumulator candidates (Houdini): a slice-typed loop variable is nil or was allocated
+	// after function entry. Checked on entry (with the entry values) and at every back edge.
+	if fr.depth == 0 && fr.old != nil {
+		for _, p := range phis {
+			if _, ok := p.Type().Underlying().(*types.Slice); !ok {
+				continue
+			}
+			id := fr.autoFreshID(li, p)
+			if fr.autoLevel[id] >= 1 || fr.autoLevel["*"] >= 2 {
+				continue
+			}
+			mk := func(v *Term) *Term {
+				return mkOr(mkEq(app("s.arr", v), leaf("0")), app(">", app("base", app("s.arr", v)), vc.wm(fr.old)))
+			}
+			o := vc.oblige("auto-frame", fmt.Sprintf("auto-fresh#%s@loop%d:%s/init", p.Comment, li.ordinal, shortFn(fr.topFn())), fr.topProps, li.pre.guard, mk(entryVals[p]), pos, "automatic accumulator freshness candidate")
+			o.AutoID = id
+			vc.assume(st.guard, mk(fr.env[p]))
+		}
+	}
+	// automatic frame candidates (Houdini): memory that existed before the loop (or at function entry)
+	// is not written by the loop. Each assumed candidate is checked at every back edge.
+	if fr.depth == 0 {
+		for _, k := range mods {
+			if !strings.HasPrefix(k, "H:") {
+				continue
+			}
+			if t := fr.autoFrame(li, k, st); t != nil {
+				vc.assume(st.guard, t)
+			}
+		}
+	}
+	li.mods = mods
 	return true
+}
+
+func (fr *Frame) autoFreshID(li *loopInfo, p *ssa.Phi) string {
+	return fmt.Sprintf("%s#%d#fresh:%s:%s", shortFn(fr.fn), li.ordinal, p.Comment, p.Name())
+}
+
+func (fr *Frame) autoID(li *loopInfo, k string) string {
+	return fmt.Sprintf("%s#%d#%s", shortFn(fr.fn), li.ordinal, k)
+}
+
+// autoFrame builds the current candidate for component k of loop li in state st (nil when switched off).
+func (fr *Frame) autoFrame(li *loopInfo, k string, st *State) *Term {
+	vc := fr.vc
+	lvl := fr.autoLevel[fr.autoID(li, k)]
+	if lvl >= 2 || fr.old == nil || fr.autoLevel["*"] >= 2 {
+		return nil
+	}
+	h0, h1 := vc.comp(li.pre, k, vc.compSort[k]), vc.comp(st, k, vc.compSort[k])
+	if same(h0, h1) {
+		return nil
+	}
+	wmRef := vc.wm(li.pre)
+	if lvl == 1 {
+		wmRef = vc.wm(fr.old)
+	}
+	return leaf(fmt.Sprintf("(forall ((ua Int)) (! (=> (<= (base ua) %s) (= (select %s ua) (select %s ua))) :pattern ((select %s ua))))", wmRef, h1, h0, h1))
 }
 
 func sortedBlocks(bs []*ssa.BasicBlock) []*ssa.BasicBlock {
@@ -824,7 +884,15 @@ func (fr *Frame) step(ins ssa.Instruction, st *State, edges map[edgeKey]*State) 
 		p := fr.val(x.X)
 		fr.derefGuard(st, p, x, "field address of nil pointer")
 		et := x.X.Type().Underlying().(*types.Pointer).Elem()
-		fr.env[x] = vc.sub(et, x.Field, p)
+		a := vc.sub(et, x.Field, p)
+		fr.env[x] = a
+		if up, inside := vc.atomicField[p.String()]; isAtomicStruct(et) || inside {
+			ref := &atomicFieldRef{parent: p, ptype: et, idx: x.Field}
+			if inside {
+				ref.up = up
+			}
+			vc.atomicField[a.String()] = ref
+		}
 		return true
 	case *ssa.Field:
 		fr.env[x] = vc.fieldOf(x.X.Type(), x.Field, fr.val(x.X))
@@ -859,6 +927,11 @@ func (fr *Frame) step(ins ssa.Instruction, st *State, edges map[edgeKey]*State) 
 		p := fr.val(x.Addr)
 		fr.derefGuard(st, p, x, "store through nil pointer")
 		fr.checkFrame(st, x, p)
+		fr.noEscape(x.Val, "stored")
+		if ref, ok := vc.atomicField[p.String()]; ok {
+			vc.storeAtomicField(st, ref, fr.val(x.Val))
+			return true
+		}
 		vc.storeVal(st, x.Val.Type(), p, fr.val(x.Val))
 		return true
 	case *ssa.BinOp:
@@ -1013,6 +1086,23 @@ func (fr *Frame) step(ins ssa.Instruction, st *State, edges map[edgeKey]*State) 
 	return true
 }
 
+// noEscape reports a field address of an atomic struct that leaves the load/store/field-address chain.
+func (fr *Frame) noEscape(v ssa.Value, how string) {
+	if _, isFA := v.(*ssa.FieldAddr); !isFA {
+		return
+	}
+	if t, ok := fr.env[v]; ok {
+		if ref, ok := fr.vc.atomicField[t.String()]; ok {
+			// the address of a field that is itself an atomic struct cell (e.g. &message.Cmd) may escape:
+			// the callee accesses it as a whole cell... only if the enclosing struct is decomposed
+			if !isAtomicStruct(ref.ptype) && ref.up == nil {
+				return
+			}
+			fr.vc.unsupportedf("address of a field of an atomic struct escapes (%s) in %s", how, fr.fn)
+		}
+	}
+}
+
 // dead reports whether the state's guard is syntactically false.
 func (vc *VC) dead(st *State) bool { return isFalse(st.guard) }
 
@@ -1062,6 +1152,39 @@ func (fr *Frame) closeLoop(li *loopInfo, from *ssa.BasicBlock, st *State) {
 	for _, c := range fr.loopInvariants(li) {
 		g := fr.evalClause(c, st, li)
 		vc.oblige("inv-pres", fr.oblName("inv-pres", c, li)+edge, c.Props, st.guard, g, pos, c.Src)
+	}
+	if fr.depth == 0 {
+		for _, k := range li.mods {
+			if !strings.HasPrefix(k, "H:") {
+				continue
+			}
+			if t := fr.autoFrame(li, k, st); t != nil {
+				o := vc.oblige("auto-frame", fmt.Sprintf("auto-frame#%s@loop%d:%s%s", k, li.ordinal, shortFn(fr.topFn()), edge), fr.topProps, st.guard, t, pos, "automatic loop frame candidate")
+				o.AutoID = fr.autoID(li, k)
+			}
+		}
+		if fr.old != nil {
+			for _, ins := range li.head.Instrs {
+				p, ok := ins.(*ssa.Phi)
+				if !ok {
+					break
+				}
+				if _, ok := p.Type().Underlying().(*types.Slice); !ok {
+					continue
+				}
+				id := fr.autoFreshID(li, p)
+				if fr.autoLevel[id] >= 1 || fr.autoLevel["*"] >= 2 {
+					continue
+				}
+				v := ov[p]
+				if v == nil {
+					continue
+				}
+				t := mkOr(mkEq(app("s.arr", v), leaf("0")), app(">", app("base", app("s.arr", v)), vc.wm(fr.old)))
+				o := vc.oblige("auto-frame", fmt.Sprintf("auto-fresh#%s@loop%d:%s%s", p.Comment, li.ordinal, shortFn(fr.topFn()), edge), fr.topProps, st.guard, t, pos, "automatic accumulator freshness candidate")
+				o.AutoID = id
+			}
+		}
 	}
 	fr.override = nil
 	fr.curBlock = saved
@@ -1137,7 +1260,12 @@ func (fr *Frame) unop(x *ssa.UnOp, st *State) bool {
 		fr.derefGuard(st, p, x, "load through nil pointer")
 		et := x.X.Type().Underlying().(*types.Pointer).Elem()
 		fr.checkGuarded(st, x, x.X)
-		v := vc.load(st, et, p)
+		var v *Term
+		if ref, ok := vc.atomicField[p.String()]; ok {
+			v = vc.loadAtomicField(st, ref)
+		} else {
+			v = vc.load(st, et, p)
+		}
 		v = vc.name(x.Name(), vc.sortOf(et), v)
 		fr.env[x] = v
 		vc.assume(st.guard, vc.ptrFacts(st, et, v, 0))
@@ -1321,7 +1449,7 @@ func (fr *Frame) makeIface(st *State, t types.Type, v *Term) *Term {
 		return v
 	}
 	if _, ok := t.Underlying().(*types.Pointer); ok {
-		return mkIte(mkEq(v, leaf("0")), app("mk-iface", intLit(int64(tag)), leaf("0")), app("mk-iface", intLit(int64(tag)), v))
+		return app("mk-iface", intLit(int64(tag)), v) // an interface holding a nil *T is itself non-nil
 	}
 	if vc.pure > 0 {
 		// inside a pure (quantified) evaluation no allocation is possible: the box is an uninterpreted function of the value
